@@ -558,3 +558,42 @@ Proof.
 Qed.
 
 End Decode.
+
+(* ------------------------------------------------ statements re-exported by Properties/C53.v *)
+Theorem c53_idx_total : forall hs m st h o prefix (s : lazyidx) want (sc : scanner) w,
+  fst (mem_find_offset hs m st h) <> Err EFuel /\ mem_find_crc hs m h <> Err EFuel /\ mem_contains hs m h <> Err EFuel /\
+  fst (mem_find_hash hs m st o) <> Err EFuel /\ snd (mem_entries hs m) <> Some EFuel /\ snd (mem_by_offset hs m) <> Some EFuel /\
+  snd (mem_prefix hs m prefix) <> Some EFuel /\
+  lazy_contains hs s h <> Err EFuel /\ lazy_find_offset hs s h <> Err EFuel /\ lazy_find_crc hs s h <> Err EFuel /\
+  lazy_find_hash hs s want <> Err EFuel /\ snd (lazy_entries hs s) <> Some EFuel /\ snd (lazy_by_offset hs s) <> Some EFuel /\
+  snd (lazy_prefix hs s prefix) <> Some EFuel /\
+  scan_find_offset sc h <> Err EFuel /\ scan_find_hash hs sc w <> Err EFuel.
+Proof.
+  intros. repeat split.
+  - apply mem_find_offset_nf. - apply mem_find_crc_nf. - apply mem_contains_nf. - apply mem_find_hash_nf.
+  - apply mem_entries_nf. - apply mem_by_offset_nf. - apply mem_prefix_nf.
+  - apply lazy_contains_nf. - apply lazy_find_offset_nf. - apply lazy_find_crc_nf. - apply lazy_find_hash_nf.
+  - apply lazy_entries_nf. - apply lazy_by_offset_nf. - apply lazy_prefix_nf.
+  - apply scan_find_offset_nf. - apply scan_find_hash_nf.
+Qed.
+
+Theorem c53_idx_no_oob :
+  (forall m b i, let ofs := get32 (slice (b_off32 b) (4 * i) 4) in
+     N.land ofs O64MASK <> 0 -> blen (m_off64 m) / 8 <= N.ldiff ofs O64MASK -> mem_get_offset m b i = Err EMalformed) /\
+  (forall m b i o, let ofs := get32 (slice (b_off32 b) (4 * i) 4) in
+     mem_get_offset m b i = Ok o -> N.land ofs O64MASK <> 0 ->
+     N.ldiff ofs O64MASK < blen (m_off64 m) / 8 /\ 8 * N.ldiff ofs O64MASK + 8 <= blen (m_off64 m)) /\
+  (forall s pos b, read_at (l_file s) (l_off32 s + pos * L_OFF32) L_OFF32 = Some b ->
+     N.land (get32 b) L_MASK <> 0 -> l_count64 s <= N.ldiff (get32 b) L_MASK -> lazy_offset s pos = Err EMalformed) /\
+  (forall s pos, let start := s_off32 s + pos * S_OFF32 in
+     let off32 := get32 (slice (s_idx s) start S_OFF32) in
+     start + S_OFF32 <= blen (s_idx s) -> N.land off32 S_MASK <> 0 ->
+     s_trailer s < s_off64 s + N.ldiff off32 S_MASK * S_OFF64 + S_OFF64 -> scan_offset s pos = Err EMalformed).
+Proof.
+  repeat split.
+  - apply mem_get_offset_slot_rejected.
+  - eapply mem_get_offset_slot_in_range; eassumption.
+  - eapply mem_get_offset_slot_in_range; eassumption.
+  - apply lazy_offset_slot_rejected.
+  - apply scan_offset_slot_rejected.
+Qed.
